@@ -461,3 +461,10 @@ extern "C" void vf_main(void) {
   vf_assert(vf_nalloc() == vf_ndealloc(), "C04: allocate/deallocate calls are paired");
   if (VF_CE) vf_assert(vf_live_blocks() == 0 && vf_nalloc() == vf_ndealloc(), "C08: no unreleased allocation at the end of the evaluation");
 }
+
+#if defined(VF_STDALLOC) && defined(VF_NATIVE_BUILD)
+// native build of the real C++: route std::allocator's operator new / delete through the ledger (the translator does the same for the cbmc build)
+void *operator new(std::size_t bytes) { return vf_native_new(bytes, sizeof(T)); }
+void operator delete(void *p) noexcept { vf_native_delete(p); }
+void operator delete(void *p, std::size_t) noexcept { vf_native_delete(p); }
+#endif
